@@ -190,7 +190,7 @@ func c18Open(kind string) (*c18Backend, error) {
 				return
 			}
 			w.Header().Set("ETag", fmt.Sprintf(`"v%d"`, v))
-			http.ServeContent(w, r, "", time.Time{}, bytes.NewReader(c))
+			http.ServeContent(&dribbleWriter{ResponseWriter: w}, r, "", time.Time{}, bytes.NewReader(c)) // short reads, as over a real network
 		}))
 		url := srv.URL
 		if kind == "httpdown" {
